@@ -280,6 +280,48 @@ def mutable_ids(o, base, acc):
     return acc
 
 
+def elim_dotdot(key):
+    """the text the `while '..' in mine` loop of _resolve leaves (scope filter only; mirrors the Lean
+    hypothesis `reducesToDotName`)"""
+    mine = key
+    while ".." in mine:
+        front, back = mine.split("..", 1)
+        trunc = front[:max(0, front.rfind("."))]
+        mine = trunc + ("." if (trunc and back) else "") + back
+    return mine
+
+
+def reduces_to_dot_name(key):
+    """the known finding's class: the key reduces to one leading dot and a single component ('.c', 'a...c')"""
+    m = elim_dotdot(key)
+    return len(m) > 1 and m[0] == "." and "." not in m[1:]
+
+
+def value_keys(v):
+    if isinstance(v, dict):
+        for fld in ("d", "t"):
+            for k, e in v.get(fld, {}).items():
+                if fld == "d":
+                    yield k
+                yield from value_keys(e)
+        for e in v.get("l", []):
+            yield from value_keys(e)
+
+
+def in_scope(case):
+    """no key of the case (operation keys, plain-dict item keys) is in the known finding's class"""
+    if case.get("stream") == "heap":
+        return True
+    for op, s, key, val in case["ops"]:
+        if isinstance(key, str) and reduces_to_dot_name(key):
+            return False
+        if any(reduces_to_dot_name(k) for k in value_keys(val)):
+            return False
+    return True
+
+
+KNOWN_CASE = {"stream": "known", "ops": [["set", 0, "a", 2], ["get", 0, ".a", 0]]}
+
 LOOKUPS = {"get", "getd", "getattr", "in", "hasattr", "keys", "items", "chk", "dir"}
 
 
@@ -660,6 +702,13 @@ def rand_comp(rng, listy):
 
 
 def rand_key(rng, used):
+    while True:
+        key, comps = rand_key_any(rng, used)
+        if not reduces_to_dot_name(key):      # the known finding's class is out of scope
+            return key, comps
+
+
+def rand_key_any(rng, used):
     if used and rng.random() < 0.6:
         comps = list(rng.choice(used))
         r = rng.random()
@@ -731,6 +780,8 @@ def rand_case(rng, stream):
         if stream == "malformed" and r < 0.6:
             toks = ["a", "b", "l", ".", ".", ".", "[", "]", "0", "1", "-", "copy", "x"]
             key = "".join(rng.choice(toks) for _ in range(rng.randint(1, 8)))
+            while reduces_to_dot_name(key):
+                key = "".join(rng.choice(toks) for _ in range(rng.randint(1, 8)))
             op = rng.choice(["get", "in", "set", "set", "del", "pop", "setdefault", "getd"])
             ops.append([op, s, key, rng.choice([1, 2, lst(1, dd(x=1)), pd(b=1)]) if op in ("set", "setdefault") else 0])
             continue
@@ -818,6 +869,9 @@ class C16(Suite):
         "lists of mappings have at most 10 elements in the precise key-listing clause (longer lists are listed with space-padded indices)",
         "getattr/hasattr are exercised on keys that are not attributes of the class (the others never reach __getattr__)",
         "each operation is given freshly built values; objects returned by the API are not re-inserted (no aliasing made by the caller)",
+        "KNOWN FINDING: keys that reduce to one leading dot and a single component ('.c', '...c', 'a...c') are resolved to that "
+        "name twice by _resolve; generated cases exclude that class (decidable predicate reduces_to_dot_name = the Lean "
+        "hypothesis reducesToDotName), the listed input is replayed on every run",
     ]
     trusted_extra = ["the eval spy installed as cpppo.dotdict.eval (module global shadowing the builtin) only observes the text"]
 
@@ -826,6 +880,11 @@ class C16(Suite):
 
     # -- cases ------------------------------------------------------------------------------------
     def cases(self, tier, rng):
+        for c in self.all_cases(tier, rng):
+            if in_scope(c):
+                yield c
+
+    def all_cases(self, tier, rng):
         for key in KEYS1:
             for op in KEYOPS:
                 yield {"stream": "grid", "ops": PRELUDE + [fix_attr([op, 0, key, 0])] + TAIL}
@@ -855,11 +914,12 @@ class C16(Suite):
         if c.get("stream") == "heap":
             steps = ",".join(kind + str(x) for kind, x in c["steps"]) or "-"
             return "ddh 1 %s %s %s %d" % (wire(c["tree"]), steps, c["k"], c["v"])
+        # flags: _resolve as it is (0), reserved names refused for intermediate levels (1)
         toks = []
         for op, s, key, val in c["ops"]:
             v = wire(val) if op in ("set", "setattr", "setdefault", "update", "popd") else ""
             toks.append("%s/%d/%s/%s" % (op, s, key, v))
-        return "dd 11 " + " ".join(toks)
+        return "dd 01 " + " ".join(toks)
 
     def impl_heap(self, c):
         """copy.copy( d ), then one assignment through the copy: how both read afterwards"""
@@ -931,6 +991,11 @@ class C16(Suite):
         return c.get("stream", "?") + ":" + (flags or "-")
 
     def shrink(self, c):
+        for v in self.shrink_all(c):
+            if in_scope(v):
+                yield v
+
+    def shrink_all(self, c):
         if c.get("stream") == "heap":
             return
         ops = c["ops"]
